@@ -28,12 +28,15 @@ fn h_fnv<T: Hash>(t: &T) -> u64 { let mut h = Fnv(0xcbf2_9ce4_8422_2325); t.hash
 
 /// Everything the comparison traits say about a pair.
 #[derive(Debug, Clone, Copy)]
-struct Rel { eq: bool, ne: bool, eq_rev: bool, cmp: Ordering, cmp_rev: Ordering, pcmp: Option<Ordering>, pcmp_rev: Option<Ordering>, hash_same: bool }
+struct Rel { eq: bool, ne: bool, eq_rev: bool, cmp: Ordering, cmp_rev: Ordering, pcmp: Option<Ordering>, pcmp_rev: Option<Ordering>, hash_same: bool,
+    /// the four comparison operators (`<`, `<=`, `>`, `>=`), which a type may override separately
+    ops: [bool; 4] }
 
 fn rel<T: Eq + Ord + Hash>(a: &T, b: &T) -> Result<Rel, String> {
     catch_unwind(AssertUnwindSafe(|| Rel {
         eq: a == b, ne: a != b, eq_rev: b == a, cmp: a.cmp(b), cmp_rev: b.cmp(a), pcmp: a.partial_cmp(b), pcmp_rev: b.partial_cmp(a),
         hash_same: h_sip(a) == h_sip(b) && h_fnv(a) == h_fnv(b),
+        ops: [a < b, a <= b, a > b, a >= b],
     })).map_err(|_| "a comparison or hash call panicked".to_string())
 }
 
@@ -123,6 +126,11 @@ fn show(es: &[Entry]) -> String {
     else { format!("{{{}, … ({} entries) …, {}}}", es[..6].iter().map(item).collect::<Vec<_>>().join(", "), es.len(), es[es.len() - 6..].iter().map(item).collect::<Vec<_>>().join(", ")) }
 }
 
+/// `<`, `<=`, `>`, `>=` must say what `cmp` says.
+fn ops_agree(r: &Rel) -> bool {
+    r.ops == [r.cmp == Ordering::Less, r.cmp != Ordering::Greater, r.cmp == Ordering::Greater, r.cmp != Ordering::Less]
+}
+
 /// A pair that must be indistinguishable to Eq / Ord / Hash.
 fn must_be_equal<T: Eq + Ord + Hash>(a: &T, b: &T, what: &str) -> Option<Violation> {
     let r = match rel(a, b) { Ok(r) => r, Err(m) => return viol("c14.panic", format!("{}: {}", what, m)) };
@@ -130,6 +138,7 @@ fn must_be_equal<T: Eq + Ord + Hash>(a: &T, b: &T, what: &str) -> Option<Violati
     if r.cmp != Ordering::Equal || r.cmp_rev != Ordering::Equal || r.pcmp != Some(Ordering::Equal) || r.pcmp_rev != Some(Ordering::Equal) {
         return viol("c14.ord_depends_on_history", format!("{}: same entries but cmp = {:?}/{:?}, partial_cmp = {:?}/{:?}", what, r.cmp, r.cmp_rev, r.pcmp, r.pcmp_rev));
     }
+    if !ops_agree(&r) { return viol("c14.partial_cmp", format!("{}: the operators <, <=, >, >= answer {:?} but cmp = {:?}", what, r.ops, r.cmp)); }
     if !r.hash_same { return viol("c14.hash_depends_on_history", format!("{}: same entries but different Hash output", what)); }
     None
 }
@@ -141,6 +150,7 @@ fn must_differ<T: Eq + Ord + Hash>(a: &T, b: &T, what: &str) -> Option<Violation
     if r.cmp == Ordering::Equal || r.cmp_rev == Ordering::Equal { return viol("c14.ord_equal_iff_eq", format!("{}: different content but cmp says Equal", what)); }
     if r.cmp != r.cmp_rev.reverse() { return viol("c14.ord_antisymmetry", format!("{}: cmp(a,b) = {:?} but cmp(b,a) = {:?}", what, r.cmp, r.cmp_rev)); }
     if r.pcmp != Some(r.cmp) || r.pcmp_rev != Some(r.cmp_rev) { return viol("c14.partial_cmp", format!("{}: partial_cmp = {:?}/{:?} disagrees with cmp = {:?}/{:?}", what, r.pcmp, r.pcmp_rev, r.cmp, r.cmp_rev)); }
+    if !ops_agree(&r) { return viol("c14.partial_cmp", format!("{}: the operators <, <=, >, >= answer {:?} but cmp = {:?}", what, r.ops, r.cmp)); }
     None
 }
 
@@ -264,6 +274,7 @@ pub fn run_c14(sc: &HistSc, st: &mut Stats) -> super::c06::HistOutcome {
             if (r.cmp == Ordering::Equal) != same { return HistOutcome { violation: viol("c14.ord_equal_iff_eq", format!("{}: cmp = {:?} but the values are structurally {}", what(), r.cmp, if same { "identical" } else { "different" })), outcome: d.finish(), nontrivial }; }
             if r.cmp != r.cmp_rev.reverse() { return HistOutcome { violation: viol("c14.ord_antisymmetry", format!("{}: cmp(a,b) = {:?} but cmp(b,a) = {:?}", what(), r.cmp, r.cmp_rev)), outcome: d.finish(), nontrivial }; }
             if r.pcmp != Some(r.cmp) { return HistOutcome { violation: viol("c14.partial_cmp", format!("{}: partial_cmp = {:?} but cmp = {:?}", what(), r.pcmp, r.cmp)), outcome: d.finish(), nontrivial }; }
+            if !ops_agree(&r) { return HistOutcome { violation: viol("c14.partial_cmp", format!("{}: the operators <, <=, >, >= answer {:?} but cmp = {:?}", what(), r.ops, r.cmp)), outcome: d.finish(), nontrivial }; }
             if same && !r.hash_same { return HistOutcome { violation: viol("c14.hash_eq", format!("{}: equal values hash differently", what())), outcome: d.finish(), nontrivial }; }
             rels[i][j] = Some(r.cmp);
             d.u8(r.cmp as i8 as u8);
